@@ -378,6 +378,27 @@ func c15Gate(c *Ctx, gc gateCase) error {
 			c.Violation("gate:"+gc.op+":input-modified", "gate modified input %d: %s", i, what)
 		}
 	}
+	// right behind an accepted list with a skipped (nil) optional input: the same tensors with
+	// the nil taken out, so that every later tensor sits one position further left. Which types
+	// a position allows does not depend on what was accepted a moment ago.
+	if verr == nil && !expectCountErr && !expectTypeErr && !variadic && gc.nilAt >= 0 && gc.nilAt < gc.n-1 {
+		shifted := append(append([]tensor.Tensor{}, supplied[:gc.nilAt]...), supplied[gc.nilAt+1:]...)
+		bad := len(shifted) < ar[0]
+		for i, t := range shifted {
+			if t != nil && !allowedAt(i, t.Dtype()) {
+				bad = true
+			}
+		}
+		op2, err2 := opset13.GetOperator(gc.op)
+		if err2 == nil {
+			_, verr2 := op2.ValidateInputs(shifted)
+			c.Eval(1)
+			c.Count("gate:shifted-lists-right-behind-an-accepted-one", 1)
+			if bad && verr2 == nil {
+				c.Violation("gate:"+gc.op+":accepted-bad-type", "right behind an accepted list with nil at position %d, the list with that nil removed (a tensor one position further left, at a position that does not allow its type, or too few inputs) was accepted", gc.nilAt)
+			}
+		}
+	}
 	if c.Idx%1500 == 7 {
 		c.Sample(map[string]any{"operator": gc.op, "inputs": gc.n, "probe_position": gc.pos, "probe_dtype": gateDtypeName(gc.dt), "nil_position": gc.nilAt, "declared_min_max": []int{min, max}, "error": fmt.Sprint(verr)})
 	}
